@@ -11,7 +11,9 @@ Decided here are structural clauses that are genuine necessary conditions of it 
            tokenize / split(char) / split(set) is implied by `length >= 1` (relational normal form).
   R-C18-3  SI ladder of prettyDouble / prettyNumber: threshold == divisor == value of the printed suffix,
            rungs descend gap-free by 10^3 down to 'k', sub-unit rungs mirrored up to 'm'; the tested value is
-           |input|, the printed one the signed input.
+           |input|, the printed one the signed input.  Rungs are if / else-if tests, a helper that runs part of the
+           ladder, or the rows of a constant table walked by a range-for (values resolved through parameters, locals
+           set once and table fields).
   R-C18-4  PseudoURL::getValue: last duplicate wins (ascending scan of the whole list without exit on a match,
            every match overwrites the record), no match throws; hasParam is any-match.
   R-C18-5  removeArgs shift loop and count update, ArgumentList constructor range, ArgumentList::remove erase
@@ -29,6 +31,10 @@ Decided here are structural clauses that are genuine necessary conditions of it 
            positive example in witness/c18_param_order.cpp.
   R-C18-10 a rung that prints <integer>.<integer> prints a fraction that fits its digits: interval of the fraction
            expression over the unsigned input with the constant unit of the call site (positive example in the witness).
+
+Helpers: file-local / private helpers are followed with parameters mapped (FileName position helpers are
+summarised into the typestate, a prefix-length index loop stands for std::mismatch, a lookup helper that scans
+from the back and returns the first hit stands for last-duplicate-wins, name=value cutting may live in a helper).
 
 Not decided: split / re-join laws as statements over all strings, split(..., keepDelim=true), FileName
 normalisation in the constructors, addExt/operator+/operator-, the URL round trip as a whole, printed precision of
@@ -390,6 +396,17 @@ class FnX(Normalizer):
         if k == 'BinaryOperator' and n.get('opcode') == '=':
             # value of an assignment expression: the variable just assigned
             return self.poly(tu.kids(n)[0])
+        if k == 'ConditionalOperator':
+            # `option && ... ? a : b` on a bool parameter: the clause analysed is the one with the option off
+            c, t, fl = tu.kids(n)[:3]
+            c0 = tu.strip(c, casts=True)
+            while c0 is not None and c0.get('kind') == 'BinaryOperator' and c0.get('opcode') == '&&':
+                c0 = tu.strip(tu.kids(c0)[0], casts=True)
+            d, v = self.var_of(c0) if c0 is not None else (None, None)
+            if d in self.params and plain_ct(v['ct']) == 'bool' and not v['defs']:
+                self.option_notes = getattr(self, 'option_notes', set())
+                self.option_notes.add(v['name'])
+                return self.poly(fl)
         return None
 
     def poly(self, n):
@@ -683,9 +700,11 @@ def check_tokens(ctx, tu, qnames):
                     inst = '%s: push_back(%s) [%s]' % (sig, tu.show(sub), kind)
                     nlen = (Poly.atom(('size', src)) - p) if n is None else n
                     check_filter(ctx, tu, tf, R2, inst, '%s|%s|%s|%s' % (R2, file, fname, kind), call, pos, extra, nlen,
-                                 alias, at, loc)
+                                 alias, at, loc, rest_len=Poly.atom(('size', src)) - p)
                     check_extent(ctx, tu, tf, R7, inst, '%s|%s|%s|%s' % (R7, file, fname, kind), call, pos, extra, src, p,
                                  n, at, loc)
+            for opt in sorted(getattr(x, 'option_notes', ())):
+                ctx.note('%s: analysed with option `%s` off (the clause with the option on is not decided)' % (fname, opt))
     return n2, n7
 
 
@@ -740,7 +759,7 @@ def contains_call(tu, n, qs):
     return False
 
 
-def check_filter(ctx, tu, tf, rule, inst, key, call, pos, extra, nlen, alias, at, loc):
+def check_filter(ctx, tu, tf, rule, inst, key, call, pos, extra, nlen, alias, at, loc, rest_len=None):
     x = tf.x
     leaves = guard_leaves(tu, x, pos, extra, at)
     sub = {}
@@ -787,6 +806,13 @@ def check_filter(ctx, tu, tf, rule, inst, key, call, pos, extra, nlen, alias, at
             continue
         if contains_call(tu, cn, ('std::getline',)):
             continue
+        if rest_len is not None:
+            # `token start < size of the input`: holds whenever a non-empty token starts there
+            ab2 = about(p, rest_len)
+            if ab2 is not None and r.op == '>=' and ab2[0] > 0 and math.ceil(Fraction(-ab2[1]) / ab2[0]) <= 1 and \
+                    (cpos == pos or x.clean(cpos, pos, x.var_ids(p, rest_len))):
+                seen.append(tu.show(cn))
+                continue
         und.append('cannot classify the condition `%s` that guards the push_back' % tu.show(cn))
     if bad:
         for b in bad:
@@ -910,6 +936,26 @@ def check_extent(ctx, tu, tf, rule, inst, key, call, pos, extra, src, p, n, at, 
                             continue
                         ca = sp.as_atom()
                         okc = False
+                        if ca is None:
+                            # found delimiter + 1: the character at the delimiter position is a delimiter, so skipping it
+                            # changes nothing -- provided the delimiter was found (npos + 1 would restart at 0)
+                            for a3 in sp.atoms(deep=False):
+                                if isinstance(a3, tuple) and a3[0] == 'var' and delim_found(a3[1]) is not None and \
+                                        (sp - Poly.atom(a3)).as_int() == 1:
+                                    for cn, truth, blk in x.guards(dpos):
+                                        nf = x.cond_at(cn, truth, x.pos_of(cn))
+                                        for lf in (rels_of(nf) or []):
+                                            ft = is_found_test(tf, lf) if lf is not None else None
+                                            if ft and ft[0] == a3[1] and ft[1] == '!=' and x.clean(x.pos_of(cn), dpos, [a3[1]]):
+                                                okc = True
+                                if isinstance(a3, tuple) and a3[0] == 'var' and delim_found(a3[1]) is not None:
+                                    c3 = (sp - Poly.atom(a3)).as_int()
+                                    if c3 is not None and c3 not in (0, 1):
+                                        problems.append(('resume', 'the scan resumes %+d characters from the found delimiter (`%s`)'
+                                                         % (c3, sp.show())))
+                                        okc = True
+                            if okc:
+                                continue
                         if isinstance(ca, tuple) and ca[0] == 'var' and ca[1] in x.vars:
                             cv = x.vars[ca[1]]
                             okc = True
@@ -1531,7 +1577,9 @@ def check_ladder(ctx, tu, qname):
         und = []
         discover_ladder(tu, LFrame(tu, f), rungs, und)
         if not rungs:
-            ctx.undecided(R, '%s %s' % (fname, f['fty']), 'no if / else-if ladder of comparisons with constants found', tu.fn_loc(f))
+            ctx.undecided(R, '%s %s' % (fname, f['fty']), '; '.join(und) if und else
+                          'no if / else-if ladder of comparisons with constants (and no constant table walked by a loop) found',
+                          tu.fn_loc(f))
             n += 1
             continue
         par = f['params'][0] if f.get('params') else None
@@ -2236,6 +2284,88 @@ def check_arglist(ctx, tu):
 # ====================================================================================================
 #  R-C18-6  prefix helpers
 # ====================================================================================================
+def prefix_length_fn(tu, f):
+    """Does f compute the length of the common prefix of its two string parameters with an index loop
+         i = 0; while (i < min(a.size(), b.size()) && a[i] == b[i]) ++i; return i;
+       returns ('ok', text) | ('bad', kind, message, loc) | ('und', why)"""
+    ps = f.get('params', [])
+    if len(ps) != 2 or not all('basic_string' in p['ct'] for p in ps) or tu.cfg(f) is None:
+        return ('und', 'not a function of two strings')
+    x = FnX(tu, f)
+    hs = loops_of(x)
+    if len(hs) != 1:
+        return ('und', 'expected one loop, found %d' % len(hs))
+    lp = CountLoop(x, hs[0])
+    if not lp.ok:
+        return ('und', lp.why)
+    K = [('var', p['id'], p['name']) for p in ps]
+    S = [Poly.atom(('size', k)) for k in K]
+    MIN = Poly.atom(('min',) + tuple(sorted(S, key=repr)))
+    loc = tu.loc(lp.cond)
+    if lp.step != 1 or not lp.ascending_test or lp.init.as_int() != 0:
+        return ('und', 'the loop is not an ascending scan from index 0')
+    # the character comparison that keeps the loop going
+    eq = None
+    for bid in lp.body:
+        b = x.g.blocks[bid]
+        if b.cond is None or len(b.succ) != 2:
+            continue
+        c = tu.strip(deciding_cond(tu, b, x.g), casts=True)
+        if c is None or c.get('kind') != 'BinaryOperator' or c.get('opcode') not in ('==', '!='):
+            continue
+        sides = []
+        for y in tu.kids(c)[:2]:
+            y = tu.strip(y, casts=True)
+            if y is not None and y.get('kind') in ('CXXOperatorCallExpr', 'CXXMemberCallExpr') and \
+                    last_name(tu.sd(y).get('q')) in ('operator[]', 'at'):
+                s_, obj, args = tu.call_parts(y)
+                if obj is not None and args and x.poly_at(args[0], x.pos_of(y)) == Poly.atom(lp.ivar):
+                    sides.append(x.objkey(obj))
+        if len(sides) == 2:
+            eq = (b, c, sides)
+    if eq is None:
+        return ('und', 'no comparison a[i] == b[i] of the two strings at the loop index found')
+    b, c, sides = eq
+    if sorted(sides, key=repr) != sorted(K, key=repr):
+        return ('und', 'the comparison `%s` does not read both parameters' % tu.show(c))
+    stay = b.succ[0] if c['opcode'] == '==' else b.succ[1]
+    leave = b.succ[1] if c['opcode'] == '==' else b.succ[0]
+    if stay not in lp.body and stay != lp.header or leave in lp.body:
+        return ('und', 'the loop does not continue exactly while the characters are equal')
+    if not lp.once_per_iteration(lp.inc_pos):
+        return ('und', 'the index is not advanced once per iteration')
+    # result
+    rets = [nd for bb, i, nd in x.g.stmts() if nd.get('kind') == 'ReturnStmt']
+    if len(rets) != 1 or not tu.kids(rets[0]) or x.poly_at(tu.kids(rets[0])[0], x.pos_of(rets[0])) != Poly.atom(lp.ivar):
+        return ('und', 'the function does not return the loop index')
+    ln = lp.bound_excl
+    if ln == MIN:
+        return ('ok', 'index loop over min(sizes) comparing a[i] == b[i]')
+    for i in (0, 1):
+        if ln == S[i]:
+            return ('bad', 'mismatch-bound', 'the scan runs over `%s` characters of `%s` without regard to the length of `%s`: '
+                    'reads behind the end of a shorter `%s`' % (ln.show(), ps[i]['name'], ps[1 - i]['name'], ps[1 - i]['name']), loc)
+    cdiff = (ln - MIN).as_int()
+    if cdiff is not None:
+        return ('bad', 'mismatch-bound', 'the scan runs over min(sizes) %+d characters: %s' % (
+            cdiff, 'reads behind the end of the shorter string' if cdiff > 0 else 'the last common character is never matched'), loc)
+    return ('und', 'scan length `%s` is not min(a.size(), b.size())' % ln.show())
+
+
+def prefix_length_call(tu, x, e, params):
+    """(verdict of prefix_length_fn, call node) if e is a call of a prefix-length function with the two parameters"""
+    e = x.peel(e)
+    if e is None or e.get('kind') != 'CallExpr':
+        return None
+    hf = tu.callee_fn(e)
+    if hf is None or hf['dep']:
+        return None
+    args = tu.kids(e)[1:]
+    if sorted(x.var_of(a)[0] or '' for a in args) != sorted(p['id'] for p in params):
+        return None
+    return prefix_length_fn(tu, hf), e, hf
+
+
 def check_prefix(ctx, tu):
     R = 'R-C18-6'
     n = 0
@@ -2250,6 +2380,29 @@ def check_prefix(ctx, tu):
         key = '%s|%s|%s|' % (R, file, fname)
         ps = f['params']
         mm = list(calls_in(x, ('mismatch',), 'std::'))
+        if len(ps) == 2 and not mm:
+            # alternative shape: <parameter>.substr(0, <prefix length of the two parameters>)
+            rets = [nd for b, i, nd in x.g.stmts() if nd.get('kind') == 'ReturnStmt']
+            e = x.peel(tu.kids(rets[0])[0]) if len(rets) == 1 and tu.kids(rets[0]) else None
+            done = False
+            if e is not None and e.get('kind') == 'CXXMemberCallExpr' and last_name(tu.sd(e).get('q')) == 'substr':
+                s_, obj, args = tu.call_parts(e)
+                real = [y for y in args if y.get('kind') != 'CXXDefaultArgExpr']
+                if x.var_of(obj)[0] in [p['id'] for p in ps] and len(real) == 2 and \
+                        x.poly_at(real[0], x.pos_of(e)).as_int() == 0:
+                    pl = prefix_length_call(tu, x, real[1], ps)
+                    if pl is not None:
+                        verdict, pc, hf = pl
+                        done = True
+                        hinst = '%s %s (via %s)' % (fname, f['fty'], fn_name(hf))
+                        if verdict[0] == 'ok':
+                            ctx.ok(R, hinst, '%s.substr(0, %s(...)): %s' % (tu.show(obj), fn_name(hf), verdict[1]), tu.loc(e))
+                        elif verdict[0] == 'bad':
+                            ctx.violation(R, hinst, verdict[2], verdict[3], key='%s|%s|%s|%s' % (R, tu.fn_file(hf), fn_name(hf), verdict[1]))
+                        else:
+                            ctx.undecided(R, hinst, '%s: %s' % (fn_name(hf), verdict[1]), tu.fn_loc(hf))
+            if done:
+                continue
         if len(ps) != 2 or len(mm) != 1:
             ctx.undecided(R, inst, 'expected two string parameters and one std::mismatch call (found %d)' % len(mm), tu.fn_loc(f))
             continue
@@ -2331,6 +2484,47 @@ def check_prefix(ctx, tu):
         ps = f['params']
         rets = [nd for b, i, nd in x.g.stmts() if nd.get('kind') == 'ReturnStmt']
         calls = list(calls_in(x, ('longestBeginningMatch',)))
+        if len(ps) == 2 and len(rets) == 1 and not calls:
+            # alternative shape: <prefix length of the two parameters> == prefix.size()
+            e = tu.strip(tu.kids(rets[0])[0], casts=True) if tu.kids(rets[0]) else None
+            done = False
+            if e is not None and e.get('kind') == 'BinaryOperator' and e.get('opcode') in ('==', '>=', '<=', '!='):
+                l, r = tu.kids(e)[:2]
+                op = e['opcode']
+                pl = prefix_length_call(tu, x, l, ps)
+                if pl is None:
+                    pl = prefix_length_call(tu, x, r, ps)
+                    l, r = r, l
+                    op = {'==': '==', '>=': '<=', '<=': '>=', '!=': '!='}[op]
+                if pl is not None:
+                    verdict, pc, hf = pl
+                    done = True
+                    rp_ = x.pos_of(rets[0])
+                    rhs = x.poly_at(r, rp_)
+                    PRE = Poly.atom(('size', ('var', ps[1]['id'], ps[1]['name'])))
+                    INP = Poly.atom(('size', ('var', ps[0]['id'], ps[0]['name'])))
+                    loc = tu.loc(rets[0])
+                    if verdict[0] == 'bad':
+                        ctx.violation(R, inst, verdict[2], verdict[3], key='%s|%s|%s|%s' % (R, tu.fn_file(hf), fn_name(hf), verdict[1]))
+                    elif op == '!=':
+                        ctx.violation(R, inst, 'beginsWith returns `%s`: the result is inverted' % tu.show(e), loc, key=key + 'negated')
+                    elif op not in ('==', '>='):
+                        ctx.undecided(R, inst, 'result `%s` is not an equality of lengths' % tu.show(e), loc)
+                    elif rhs == INP and rhs != PRE:
+                        ctx.violation(R, inst, 'the match length is compared with the length of the input `%s` instead of the prefix `%s`: '
+                                      'true only when the input is itself a prefix of the second argument' % (ps[0]['name'], ps[1]['name']),
+                                      loc, key=key + 'compares-with-input')
+                    elif (rhs - PRE).as_int() not in (None, 0):
+                        ctx.violation(R, inst, 'the match length is compared with `%s`, expected `%s`' % (rhs.show(), PRE.show()), loc,
+                                      key=key + 'prefix-length')
+                    elif rhs != PRE:
+                        ctx.undecided(R, inst, 'the match length is compared with `%s`' % rhs.show(), loc)
+                    elif verdict[0] == 'und':
+                        ctx.undecided(R, inst, '%s: %s' % (fn_name(hf), verdict[1]), tu.fn_loc(hf))
+                    else:
+                        ctx.ok(R, inst, '%s(input, prefix) == size(prefix); %s' % (fn_name(hf), verdict[1]), loc)
+            if done:
+                continue
         if len(ps) != 2 or len(rets) != 1 or len(calls) != 1:
             ctx.undecided(R, inst, 'expected one return and one longestBeginningMatch call', tu.fn_loc(f))
             continue
@@ -3216,18 +3410,23 @@ INF = float('inf')
 class MatchScan:
     """scan of the name=value list of one PseudoURL member: the match test, its loop, what happens on a match"""
 
-    def __init__(self, tu, f):
+    def __init__(self, tu, f, helper=False):
         self.tu = tu
         self.f = f
         self.x = FnX(tu, f)
         self.g = self.x.g
         self.why = None
         self.match = None
+        self.direction = None
+        self.index = None
+        self.helper = helper
         self._find_match()
 
     def _find_match(self):
         tu, x = self.tu, self.x
-        name_param = self.f['params'][0]['id'] if self.f.get('params') else None
+        name_params = [p['id'] for p in self.f.get('params', []) if 'basic_string' in p['ct'] and 'vector' not in p['ct']]
+        if not self.helper:
+            name_params = name_params[:1]
         cands = []
         for b in self.g.blocks.values():
             if b.cond is None or len(b.succ) != 2:
@@ -3249,7 +3448,7 @@ class MatchScan:
                 continue
             fi = [i for i, y in enumerate(ks) if y.get('kind') == 'MemberExpr' and y.get('name') in ('first', 'second')
                   and (tu.sd(y).get('q') or '').startswith('std::pair<')]
-            pi = [i for i, y in enumerate(ks) if x.var_of(y)[0] == name_param]
+            pi = [i for i, y in enumerate(ks) if x.var_of(y)[0] in name_params]
             if len(fi) == 1 and len(pi) == 1 and fi[0] != pi[0]:
                 cands.append((b, c, ks[fi[0]], neg))
         if len(cands) != 1:
@@ -3312,10 +3511,35 @@ class MatchScan:
             self.why = 'the compared element is not list[index]'
             return
         ks = tu.kids(el)[1:]
-        if x.objkey(ks[0])[0] != 'field' or x.poly_at(ks[1], x.pos_of(el)) != Poly.atom(lp.ivar):
+        lk = x.objkey(ks[0])
+        eidx = x.poly_at(ks[1], x.pos_of(el))
+        self.elem_index = eidx
+        if self.helper and lk[0] in ('field', 'var') and (eidx - Poly.atom(lp.ivar)).as_int() == -1 and lp.step == -1 and \
+                not lp.ascending_test and lp.lower_incl.as_int() == 1 and lp.init == Poly.atom(('size', lk)):
+            # for (i = size; i > 0; --i) ... list[i - 1]: the whole list from the back
+            self.listkey = lk
+            self.index = lp.ivar
+            self.direction = 'desc'
+            return
+        if self.helper and lk[0] in ('field', 'var') and (eidx - Poly.atom(lp.ivar)).as_int() == -1 and lp.step == -1 and \
+                not lp.ascending_test and lp.lower_incl.as_int() not in (None, 1) and lp.init == Poly.atom(('size', lk)):
+            self.listkey = lk
+            self.index = lp.ivar
+            self.direction = 'desc-partial'
+            self.why = 'the scan from the back stops at index %d instead of 0' % (lp.lower_incl.as_int() - 1)
+            return
+        if self.helper and lk[0] == 'var' and eidx == Poly.atom(lp.ivar):
+            self.listkey = lk
+            self.index = lp.ivar
+            if lp.step == 1 and lp.ascending_test and lp.init.as_int() == 0 and lp.bound_excl == Poly.atom(('size', lk)):
+                self.direction = 'asc'
+            else:
+                self.why = 'loop `%s` is not a scan of the whole list' % tu.show(lp.cond)
+            return
+        if lk[0] != 'field' or eidx != Poly.atom(lp.ivar):
             self.why = 'the compared element is not list[loop index]'
             return
-        self.listkey = x.objkey(ks[0])
+        self.listkey = lk
         self.index = lp.ivar
         if lp.step == 1 and lp.ascending_test and lp.init.as_int() == 0 and lp.bound_excl == Poly.atom(('size', self.listkey)):
             self.direction = 'asc'
@@ -3330,7 +3554,7 @@ class MatchScan:
         st = [start]
         while st:
             b = st.pop()
-            if b == avoid:
+            if avoid is not None and b == avoid:
                 continue
             for s in self.g.blocks[b].succ:
                 if s is not None and s not in seen:
@@ -3434,6 +3658,187 @@ def classify_val(ms, e, pos):
     return 'T'
 
 
+def lookup_helper(tu, hf):
+    """Does the helper hf(list, name) return a pointer to the LAST element of the list whose name matches, or null?
+    Recognised shape: scan from the back (index size..1, element list[i-1]) that returns the address of the element at
+    the first hit, and null behind the loop.   ('ok', text) | ('bad', kind, message, loc) | ('und', why)"""
+    ms = MatchScan(tu, hf, helper=True)
+    if ms.match is None:
+        return ('und', ms.why or 'no name comparison found')
+    if ms.direction is None:
+        return ('und', ms.why or 'scan direction not recognised')
+    x = ms.x
+    loc = tu.loc(ms.match['cond'])
+    if ms.match['field'] != 'first':
+        return ('bad', 'match-field', 'the argument is compared with `.%s` of the parameter instead of its name `.first`' % ms.match['field'], loc)
+    if ms.direction == 'asc' and ms.exits_on_match():
+        return ('bad', 'first-match-wins', 'the scan from the front is left on the first match: for a repeated parameter the first '
+                'value is found instead of the last', loc)
+    if ms.direction == 'desc-partial':
+        return ('bad', 'scan-range', ms.why, loc)
+    if ms.direction != 'desc':
+        return ('und', 'only a scan from the back is recognised inside a lookup helper (found: %s)' % ms.direction)
+    g = x.g
+    # on a match: return &list[matched index] at once
+    tb = g.blocks[ms.match['true_succ']]
+    rets = [tu.node(e[1]) for e in tb.el if e[0] == 'S' and tu.node(e[1]) is not None and tu.node(e[1]).get('kind') == 'ReturnStmt']
+    if len(rets) != 1 or ms.header in ms.reach_blocks(ms.match['true_succ'], None):
+        return ('bad', 'first-match-wins', 'the scan from the back is not left at the first hit: an earlier duplicate can win', loc) \
+            if ms.header in ms.reach_blocks(ms.match['true_succ'], None) else ('und', 'the match branch does not return directly')
+    e = tu.strip(tu.kids(rets[0])[0], casts=True) if tu.kids(rets[0]) else None
+    okr = False
+    if e is not None and e.get('kind') == 'UnaryOperator' and e.get('opcode') == '&':
+        t = tu.strip(tu.kids(e)[0], casts=True)
+        if t is not None and t.get('kind') == 'CXXOperatorCallExpr' and last_name(tu.sd(t).get('q')) == 'operator[]':
+            ks = tu.kids(t)[1:]
+            if x.objkey(ks[0]) == ms.listkey and x.poly_at(ks[1], x.pos_of(rets[0])) == ms.elem_index:
+                okr = True
+    if not okr:
+        return ('und', 'the match branch does not return the address of the matching element')
+    # every other return is null
+    for b, i, nd in g.stmts():
+        if nd.get('kind') == 'ReturnStmt' and nd is not rets[0]:
+            v = x.poly_at(tu.kids(nd)[0], (b.id, i)).as_int() if tu.kids(nd) else None
+            if v != 0:
+                return ('und', '`%s` is not a null result' % tu.show(nd))
+    return ('ok', 'scan from the back over the whole list, first hit returned by address, else null')
+
+
+def run_assuming(tu, x, atom_is, bounds_val):
+    """explore x's function with the value of one atom assumed ((0,0) = null / (1,inf) = non-null): returns
+    [(kind 'return'|'throw', node)] reachable under the assumption"""
+    from rkstatic.x_expr import decide_bool
+    recs = []
+    g = x.g
+
+    def bounds(a):
+        if atom_is(a):
+            return bounds_val
+        return (-INF, INF)
+
+    def transfer(blk, idx, el, st):
+        if el[0] != 'S':
+            return [st]
+        n = tu.node(el[1])
+        if n is None:
+            return [st]
+        if n.get('kind') == 'ReturnStmt':
+            recs.append(('return', n))
+        elif n.get('kind') == 'CXXThrowExpr':
+            recs.append(('throw', n))
+            return []
+        return [st]
+
+    def refine(blk, si, st):
+        c = deciding_cond(tu, blk, g)
+        if c is None:
+            return [st]
+        nf = x.cond_at(c, si == 0, x.pos_of(c))
+        try:
+            v = decide_bool(nf, bounds)
+        except Exception:
+            v = None
+        return [] if v is False else [st]
+
+    g.explore([0], transfer, refine)
+    return recs, bounds
+
+
+def lookup_via_helper(ctx, tu, f, R, inst, key, want):
+    """getValue / hasParam written on top of a lookup helper; want: 'value' or 'bool'.  Returns True if handled."""
+    from rkstatic.x_expr import decide_bool
+    x = FnX(tu, f)
+    cands = []
+    for b, i, nd in x.g.stmts():
+        if nd.get('kind') == 'CallExpr':
+            hf = tu.callee_fn(nd)
+            if hf is None or hf['dep'] or hf.get('rec') or tu.cfg(hf) is None:
+                continue
+            args = tu.kids(nd)[1:]
+            keys = [x.objkey(a) for a in args]
+            if len(args) == 2 and any(k[0] == 'field' and k[2] == 'params' for k in keys) and \
+                    any(k[0] == 'var' and k[1] in x.params for k in keys):
+                cands.append((nd, hf, (b.id, i)))
+    if len(cands) != 1:
+        return False
+    call, hf, cpos = cands[0]
+    verdict = lookup_helper(tu, hf)
+    loc = tu.loc(call)
+    hname = fn_name(hf)
+    if verdict[0] == 'bad':
+        ctx.violation(R, inst, '%s: %s' % (hname, verdict[2]), verdict[3], key='%s|%s|%s|%s' % (R, tu.fn_file(hf), hname, verdict[1]))
+        return True
+    if verdict[0] == 'und':
+        ctx.undecided(R, inst, 'lookup helper %s: %s' % (hname, verdict[1]), tu.fn_loc(hf))
+        return True
+    # which atom carries the result: a local set once from the call, or the call itself
+    tracked = None
+    for d, v in x.vars.items():
+        init = x.single_init(d)
+        if init is not None and x.peel(init) is not None and x.peel(init).get('id') == call.get('id'):
+            tracked = d
+
+    def atom_is(a):
+        if tracked is not None:
+            return isinstance(a, tuple) and a[0] == 'var' and a[1] == tracked
+        return isinstance(a, tuple) and a[0] == 'expr' and a[1] == call.get('id')
+
+    bad, und = [], []
+    for label, bv in (('absent', (0, 0)), ('found', (1, INF))):
+        recs, bounds = run_assuming(tu, x, atom_is, bv)
+        if not recs:
+            und.append('no exit found for the case `%s`' % label)
+        for kind, node in recs:
+            if want == 'value':
+                if label == 'absent' and kind != 'throw':
+                    bad.append(('no-throw', 'the function can return at %s although the lookup found no parameter: it must throw' % tu.loc(node)))
+                elif label == 'found' and kind == 'throw':
+                    bad.append(('throws-when-found', 'the exception at %s can be reached although the lookup found the parameter' % tu.loc(node)))
+                elif label == 'found':
+                    e = x.peel(tu.kids(node)[0]) if tu.kids(node) else None
+                    okr = False
+                    if e is not None and e.get('kind') == 'MemberExpr' and e.get('name') in ('first', 'second') and tracked is not None:
+                        base = tu.strip(tu.kids(e)[0], casts=True)
+                        while base is not None and base.get('kind') == 'UnaryOperator' and base.get('opcode') == '*':
+                            base = tu.strip(tu.kids(base)[0], casts=True)
+                        if x.var_of(base)[0] == tracked:
+                            okr = True
+                            if e['name'] != 'second':
+                                bad.append(('returns-name', 'the name `.first` of the matching parameter is returned instead of its value `.second`'))
+                    if not okr:
+                        und.append('cannot relate the returned `%s` to the looked-up element' % (tu.show(e) if e else '?'))
+            else:
+                if kind == 'throw':
+                    bad.append(('throws', 'hasParam throws at %s' % tu.loc(node)))
+                    continue
+                e = tu.kids(node)[0] if tu.kids(node) else None
+                rv = None
+                if e is not None:
+                    try:
+                        rv = decide_bool(x.cond_at(e, True, x.pos_of(node)), bounds)
+                    except Exception:
+                        rv = None
+                if rv is None:
+                    und.append('cannot evaluate the result `%s`' % (tu.show(e) if e is not None else '?'))
+                elif label == 'found' and rv is False:
+                    bad.append(('false-on-match', '`%s` is false although the lookup found the parameter' % tu.show(node)))
+                elif label == 'absent' and rv is True:
+                    bad.append(('true-without-match', '`%s` is true although the lookup found nothing' % tu.show(node)))
+    if bad:
+        seen = set()
+        for k, m in bad:
+            if (k, m) not in seen:
+                seen.add((k, m))
+                ctx.violation(R, inst, m, loc, key=key + k)
+    elif und:
+        for u in sorted(set(und)):
+            ctx.undecided(R, inst, u, loc)
+    else:
+        ctx.ok(R, inst, 'via %s: %s; %s' % (hname, verdict[1], 'absent -> throw, found -> its value' if want == 'value'
+                                           else 'true iff found'), loc)
+    return True
+
+
 def check_url_lookup(ctx, tu):
     R = 'R-C18-4'
     ctx.describe(R, 'PseudoURL::getValue returns the value of the last parameter with the given name (ascending scan, no exit on a '
@@ -3447,6 +3852,8 @@ def check_url_lookup(ctx, tu):
         inst = '%s %s' % (fname, f['fty'])
         key = '%s|%s|%s|' % (R, file, fname)
         ms = MatchScan(tu, f)
+        if ms.match is None and lookup_via_helper(ctx, tu, f, R, inst, key, 'value'):
+            continue
         if ms.match is None or ms.direction is None:
             ctx.undecided(R, inst, ms.why or 'cannot find the scan', tu.fn_loc(f))
             continue
@@ -3559,6 +3966,8 @@ def check_url_lookup(ctx, tu):
         inst = '%s %s' % (fname, f['fty'])
         key = '%s|%s|%s|' % (R, file, fname)
         ms = MatchScan(tu, f)
+        if ms.match is None and lookup_via_helper(ctx, tu, f, R, inst, key, 'bool'):
+            continue
         if ms.match is None or ms.direction is None:
             ctx.undecided(R, inst, ms.why or 'cannot find the scan', tu.fn_loc(f))
             continue
@@ -3622,9 +4031,23 @@ def check_url_lookup(ctx, tu):
 def check_url_cuts(ctx, tu):
     R = 'R-C18-8'
     n = 0
+    fns = []
     for f in tu.fns(q=URL + '::PseudoURL'):
         if f['dep'] or tu.cfg(f) is None or f.get('ctor') in ('copy', 'move') or f.get('implicit') or not f.get('params'):
             continue
+        fns.append(f)
+        # file-local helpers the constructor hands its pieces to (parse order is theirs as much as the constructor's)
+        work = [f]
+        while work:
+            cur = work.pop()
+            for b, i, nd in tu.cfg(cur).stmts():
+                if nd.get('kind') == 'CallExpr':
+                    hf = tu.callee_fn(nd)
+                    if hf is not None and not hf['dep'] and not hf.get('rec') and tu.cfg(hf) is not None and \
+                            tu.fn_file(hf) == tu.fn_file(f) and hf not in fns:
+                        fns.append(hf)
+                        work.append(hf)
+    for f in fns:
         x = FnX(tu, f)
         file, fname = tu.fn_file(f), fn_name(f)
         # every find(<literal>) whose result is kept in a local that is set once
